@@ -393,6 +393,32 @@ pub fn future_programs(thorough: bool) -> Vec<Program> {
         s.push((0, finish(0)));
         out.push(lockstep(&name("inscope"), &s));
     }
+    // an adapter whose span is unsampled, polled while the polling thread has a sampled local
+    // parent (same thread, or after migrating): the adapter's own (unsampled) scope must shadow it
+    for polls in 1..=2u32 {
+        for eop in [false, true] {
+            for migrate in [false, true] {
+                let mut s: Vec<(usize, Op)> = vec![
+                    (0, root(0, "r", 0x13)),
+                    (0, root_full(1, "u", 0x1305, 3, false, vec![])),
+                    (0, Op::MkInSpan { fut: 0, slot: 1, polls, tag: "f".into(), inner_enter_on_poll: eop }),
+                ];
+                let a = if migrate { 1 } else { 0 };
+                s.push((a, scope(0)));
+                s.push((a, lenter("outer")));
+                for _ in 0..polls {
+                    s.push((a, Op::ObserveLocal));
+                    s.push((a, Op::Poll { fut: 0 }));
+                    s.push((a, Op::ObserveLocal));
+                }
+                s.push((a, pop()));
+                s.push((a, pop()));
+                s.push((a, Op::DropFut { fut: 0 }));
+                s.push((a, finish(0)));
+                out.push(lockstep(&name("unsampled"), &s));
+            }
+        }
+    }
     // nested in_span(in_span): the outer span a child or the trace's root, dropped at every point
     for polls in 1..=2u32 {
         for outer_is_root in [false, true] {
@@ -490,6 +516,35 @@ pub fn stream_sink_programs(thorough: bool) -> Vec<Program> {
                 }
             }
         }
+    }
+    // adapters with an unsampled span used inside a sampled scope
+    for items in 0..=1u32 {
+        let mut s: Vec<(usize, Op)> = vec![(0, root(0, "r", 0x14)), (0, root_full(1, "u", 0x1405, 3, false, vec![]))];
+        s.push((0, Op::MkStream { fut: 0, slot: 1, items, pending_first: false, tag: "st".into() }));
+        s.push((0, scope(0)));
+        for _ in 0..=items {
+            s.push((0, Op::ObserveLocal));
+            s.push((0, Op::PollNext { fut: 0 }));
+            s.push((0, Op::ObserveLocal));
+        }
+        s.push((0, pop()));
+        s.push((0, Op::DropFut { fut: 0 }));
+        s.push((0, finish(0)));
+        out.push(lockstep(&name("unsampled"), &s));
+    }
+    {
+        let mut s: Vec<(usize, Op)> = vec![(0, root(0, "r", 0x15)), (0, root_full(1, "u", 0x1505, 3, false, vec![]))];
+        s.push((0, Op::MkSink { fut: 0, slot: 1, tag: "sk".into(), pending_first: true }));
+        s.push((0, scope(0)));
+        for op in [Op::SinkReady { fut: 0 }, Op::SinkSend { fut: 0 }, Op::SinkFlush { fut: 0 }, Op::SinkClose { fut: 0 }, Op::SinkClose { fut: 0 }] {
+            s.push((0, Op::ObserveLocal));
+            s.push((0, op));
+            s.push((0, Op::ObserveLocal));
+        }
+        s.push((0, pop()));
+        s.push((0, Op::DropFut { fut: 0 }));
+        s.push((0, finish(0)));
+        out.push(lockstep(&name("unsampled"), &s));
     }
     // sinks: call sequences over ready/send/flush/close, close possibly pending once
     let calls: Vec<Vec<Op>> = {
